@@ -169,9 +169,9 @@ func (so *Sorts) strConst(s string) string {
 		return sym
 	}
 	if s == "" {
-		so.strConsts[s] = "str.empty"
+		so.strConsts[s] = "strempty"
 		so.strOrder = append(so.strOrder, s)
-		return "str.empty"
+		return "strempty"
 	}
 	clean := strings.Map(func(r rune) rune {
 		if r == '|' || r == '\\' || r < 32 || r > 126 {
@@ -186,7 +186,7 @@ func (so *Sorts) strConst(s string) string {
 	so.strConsts[s] = sym
 	so.strOrder = append(so.strOrder, s)
 	so.decls = append(so.decls, fmt.Sprintf("(declare-const %s Str)", sym))
-	so.decls = append(so.decls, fmt.Sprintf("(assert (= (str.len %s) %d))", sym, len(s)))
+	so.decls = append(so.decls, fmt.Sprintf("(assert (= (strlen %s) %d))", sym, len(s)))
 	return sym
 }
 
@@ -270,14 +270,14 @@ func (so *Sorts) tagTable() []string {
 
 const basePrelude = `
 (declare-sort Str 0)
-(declare-fun str.len (Str) Int)
-(declare-fun str.cat (Str Str) Str)
+(declare-fun strlen (Str) Int)
+(declare-fun strcat (Str Str) Str)
 (declare-fun hasPrefix (Str Str) Bool)
-(declare-fun str.lt (Str Str) Bool)
-(declare-const str.empty Str)
-(assert (= (str.len str.empty) 0))
-(assert (forall ((s Str)) (! (hasPrefix s str.empty) :pattern ((hasPrefix s str.empty)))))
-(assert (forall ((s Str)) (! (>= (str.len s) 0) :pattern ((str.len s)))))
+(declare-fun strlt (Str Str) Bool)
+(declare-const strempty Str)
+(assert (= (strlen strempty) 0))
+(assert (forall ((s Str)) (! (hasPrefix s strempty) :pattern ((hasPrefix s strempty)))))
+(assert (forall ((s Str)) (! (>= (strlen s) 0) :pattern ((strlen s)))))
 (declare-datatypes ((Slice 0)) (((mk_slice (s.arr Int) (s.off Int) (s.len Int) (s.cap Int)))))
 (declare-datatypes ((Iface 0)) (((mk_iface (i.tag Int) (i.val Int)))))
 (declare-fun born (Int) Int)
